@@ -140,11 +140,31 @@ def gen_history(rng):
 
 def layout_cases(rng):
     chunks = gen_history(rng)
+    engine = "postgresql"
+    if rng.random() < 0.25:
+        # the MySQL parser cuts a file into statements itself: same history, MySQL spelling
+        engine = "mysql"
+        chunks, nt = [], 0
+        for i_ in range(rng.randint(2, 6)):
+            if nt == 0 or rng.random() < 0.6:
+                chunks.append(["CREATE TABLE m%d (id int, %s);" % (nt, rng.choice(["a text", "b bigint NOT NULL", "c varchar(10)"]))])
+                nt += 1
+            else:
+                chunks.append(["ALTER TABLE m%d ADD COLUMN x%d text;" % (rng.randrange(nt), i_)])
+            if rng.random() < 0.2:
+                chunks[-1].insert(0, "-- step %d" % i_)
     cfg = lambda schema: json.dumps({"version": "1", "packages": [
-        {"path": "db", "engine": "postgresql", "schema": schema, "queries": "q/query.sql"}]})
+        {"path": "db", "engine": engine, "schema": schema, "queries": "q/query.sql"}]})
     q = "-- name: Ping :exec\nSELECT 1;\n"
     down = ["DROP TABLE IF EXISTS nothing;", "CREATE TABLE zz_down (a int);"]
     single = "\n".join(l for c in chunks for l in c) + "\n"
+    if rng.random() < 0.3:
+        # statements glued to the semicolon before them (no white space in between), where no comment line follows
+        single = ""
+        for c in chunks:
+            text = "\n".join(c)
+            single += text if (single.endswith(";") and not text.startswith("--") and rng.random() < 0.7) else ("\n" if single else "") + text
+        single += "\n"
     base = {"op": "generate", "files": {"sqlc.json": cfg("schema.sql"), "schema.sql": single, "q/query.sql": q}}
     # cut into consecutive groups
     ncut = rng.randint(1, len(chunks))
